@@ -115,6 +115,23 @@ CHECKS = {
               'defects found by this check were repaired (fix commits 77c1a44, cf7126d, 663fb3b).'),
         technique='contract-based deductive verification: symbolic execution of the real classes, name-decoded specification, mechanically derived sensitivities',
     ),
+    'C08': dict(
+        category='proof',
+        text=('Representation-invariant proof for the three reduced wrappers (error, mechanistic, population model; wrapped models are recording '
+              'contract stubs with 1-3 parameters, values symbolic): from the canonical representative of every abstract state A (set of fixed '
+              'name-value pairs) and for every fix_parameters dictionary (each name absent / new value / None) the wrapper ends in the state '
+              'given by the documented update rule; names, counts and n_fixed list exactly the free parameters in original order; every '
+              'evaluation method (value, pointwise, sensitivities in both return forms, individual parameters, simulate, sample) hands the '
+              'wrapped model exactly merge(x, A), passes results through and returns exactly the free sub-vector of the sensitivities; a second '
+              'evaluation is unaffected by the first.  LogLikelihood and PredictiveModel: wrappers present iff something is fixed, names and '
+              'counts re-derived, free vector routed to the right sub-models, evaluateS1 gradient = free sub-vector.  Every observable is thus '
+              'a function of the resulting set of fixed pairs only, which gives reversibility and order independence for all call sequences.'),
+        design_ref='DESIGN.md section 4 (C08)',
+        note=('Wrapped models by contract; <= 3 parameters per wrapped model (exhaustive for chi\'s error models); the induction over call '
+              'sequences is the representation-invariant meta-argument; PopulationPredictiveModel / ProblemModellingController.fix_parameters '
+              'delegate to these objects through pandas-free code paths not separately modelled (controller routing is C14, bounded).'),
+        technique='contract-based verification of a representation invariant: one step from every abstract state, recording stubs, symbolic values',
+    ),
     'C09': dict(
         category='proof',
         text=('With the numerical ODE solver assumed (the ghost solver of pvc/ghostsim.py is the statement of its contract), the real '
@@ -197,6 +214,7 @@ CHECK_MODULES = {
     'C05': 'contracts.c05',
     'C06': 'contracts.c06',
     'C07': 'contracts.c07',
+    'C08': 'contracts.c08',
     'C09': 'contracts.c09',
     'C10': 'contracts.c10',
     'C11': 'contracts.c11',
